@@ -266,6 +266,13 @@ class HTMLUnicodeInputStream(object):
             # We have no more data, bye-bye stream
             return False
 
+        if len(data) == 1:
+            lastv = ord(data)
+            if lastv == 0x0D or 0xD800 <= lastv <= 0xDBFF:
+                # A lone CR or lead surrogate: what it means depends on
+                # the character that follows, so read on
+                data += self.dataStream.read(chunkSize)
+
         if len(data) > 1:
             lastv = ord(data[-1])
             if lastv == 0x0D or 0xD800 <= lastv <= 0xDBFF:
